@@ -101,6 +101,8 @@ func destructiveDoc(b *core.Builtin) bool {
 
 func runC06(c *core.Ctx, r *core.Reporter) {
 	c.BuildSSA()
+	c06place(c, r)
+	c.BuildSSA()
 	c06own(c, r)
 	c06insert(c, r)
 	c06result(c, r)
@@ -572,5 +574,67 @@ func c06insert(c *core.Ctx, r *core.Reporter) {
 	}
 	if n == 0 {
 		r.Hold(rule, "module|no nested in-place insert", "-", "no append(append(X[:i], ...), X[j:]...) on one slice exists in the module")
+	}
+}
+
+// c06place: rplaca and rplacd change the cons they are given: afterwards the argument and the result are the
+// same list. A list is a slice passed by value, so that can only hold if the function returns the very slice it
+// received (same backing array, same length). A result built by appending to a reslice of the argument has
+// written into the caller's elements while the caller keeps its old length: (let ((a (list 1 2 3)))
+// (rplacd a '(y)) a) => (1 y 3), neither unchanged nor (1 y).
+func c06place(c *core.Ctx, r *core.Reporter) {
+	const rule = "C06.place"
+	r.Rule(rule, "rplaca and rplacd return the list value they were given (not a reslice of it or an append onto it): only then does the caller's list equal the result", 2)
+	for _, name := range []string{"rplaca", "rplacd"} {
+		b := c.ByName("pkg/cl", name)
+		if b == nil || b.Call == nil {
+			r.Undecided(rule, "pkg/cl:"+name, "-", "function not found in the registry")
+			continue
+		}
+		fn := c.SSAFunc(b.Call)
+		ok := true
+		detail := "every returned list is the argument list itself"
+		for _, blk := range fn.Blocks {
+			ret, isRet := blk.Instrs[len(blk.Instrs)-1].(*ssa.Return)
+			if !isRet {
+				continue
+			}
+			for _, rv := range ret.Results {
+				var visit func(v ssa.Value, depth int)
+				seen := map[ssa.Value]bool{}
+				visit = func(v ssa.Value, depth int) {
+					if depth > 8 || seen[v] {
+						return
+					}
+					seen[v] = true
+					switch x := v.(type) {
+					case *ssa.MakeInterface:
+						visit(x.X, depth+1)
+					case *ssa.Phi:
+						for _, e := range x.Edges {
+							visit(e, depth+1)
+						}
+					case *ssa.UnOp:
+						if al, isAl := x.X.(*ssa.Alloc); isAl {
+							for _, ref := range *al.Referrers() {
+								if st, isSt := ref.(*ssa.Store); isSt && st.Addr == ssa.Value(al) {
+									visit(st.Val, depth+1)
+								}
+							}
+						}
+					case *ssa.Slice:
+						ok = false
+						detail = "a returned list is a reslice of the argument at " + c.Pos(x.Pos())
+					case *ssa.Call:
+						if bi, isB := x.Call.Value.(*ssa.Builtin); isB && bi.Name() == "append" {
+							ok = false
+							detail = "a returned list is built by append at " + c.Pos(x.Pos())
+						}
+					}
+				}
+				visit(rv, 0)
+			}
+		}
+		r.Decide(ok, rule, "pkg/cl:"+name, c.Pos(fn.Pos()), detail)
 	}
 }
